@@ -99,6 +99,18 @@ func (m *machine) truncDivMod(a *Term, d *big.Int) (q, r *Term) {
 	ts := m.ts
 	ad := new(big.Int).Abs(d)
 	nonneg := a.Lo != nil && a.Lo.Sign() >= 0
+	if !nonneg && !m.spec && !a.IsConst() {
+		// ask the solver whether the dividend can be negative on this path
+		if v, ok := m.nonnegCache[a]; ok {
+			nonneg = v
+		} else {
+			nonneg = m.check(ts.Lt(a, ts.Int(0))) == Unsat
+			if m.nonnegCache == nil {
+				m.nonnegCache = map[*Term]bool{}
+			}
+			m.nonnegCache[a] = nonneg
+		}
+	}
 	var qabs *Term // |a| div |d|
 	if nonneg {
 		qabs = ts.DivE(a, ad)
@@ -213,6 +225,26 @@ func (m *machine) symBinop(op token.Token, t types.Type, x, y value) value {
 			}
 		}
 		ua, ub := m.unsignedRep(a, k), m.unsignedRep(b, k)
+		// and with a constant contiguous run of bits 2^j*(2^w-1)
+		if op == token.AND {
+			for _, p := range [][2]*Term{{ua, ub}, {ub, ua}} {
+				if j, w, ok := bitRun(p[1]); ok {
+					r := ts.Mul(ts.ModE(ts.DivE(p[0], pow2(j)), pow2(w)), ts.IntBig(pow2(j)))
+					return m.fromUnsignedRep(r, k)
+				}
+			}
+		}
+		// or / xor of operands with provably disjoint bits is addition
+		if op == token.OR || op == token.XOR {
+			for _, p := range [][2]*Term{{ua, ub}, {ub, ua}} {
+				if p[0].Lo != nil && p[0].Lo.Sign() >= 0 && p[0].Hi != nil {
+					j := p[0].Hi.BitLen()
+					if multipleOfPow2(p[1], j) {
+						return m.fromUnsignedRep(ts.Add(p[0], p[1]), k)
+					}
+				}
+			}
+		}
 		var r *Term
 		switch op {
 		case token.AND:
@@ -1247,4 +1279,39 @@ func basicKind(b *types.Basic) types.BasicKind {
 		return types.Float64
 	}
 	return b.Kind()
+}
+
+// bitRun: t is a constant of the form 2^j * (2^w - 1), w >= 1.
+func bitRun(t *Term) (j, w int, ok bool) {
+	if !t.IsConst() || t.Val.Sign() <= 0 {
+		return
+	}
+	v := new(big.Int).Set(t.Val)
+	for v.Bit(0) == 0 {
+		v.Rsh(v, 1)
+		j++
+	}
+	w = v.BitLen()
+	if new(big.Int).Add(v, big.NewInt(1)).Cmp(pow2(w)) != 0 {
+		return 0, 0, false
+	}
+	return j, w, true
+}
+
+// multipleOfPow2 reports whether t is syntactically a multiple of 2^j.
+func multipleOfPow2(t *Term, j int) bool {
+	if j == 0 {
+		return true
+	}
+	switch t.Op {
+	case OpConst:
+		return new(big.Int).Mod(t.Val, pow2(j)).Sign() == 0
+	case OpMul:
+		return multipleOfPow2(t.Args[0], j) || multipleOfPow2(t.Args[1], j)
+	case OpAdd, OpSub:
+		return multipleOfPow2(t.Args[0], j) && multipleOfPow2(t.Args[1], j)
+	case OpIte:
+		return multipleOfPow2(t.Args[1], j) && multipleOfPow2(t.Args[2], j)
+	}
+	return false
 }
